@@ -63,3 +63,10 @@ Fixpoint nodup_b (l : list Z) : bool :=
 (* the label of period i is carried by period i only *)
 Definition unique_at (span : list Z) (i : nat) : bool :=
   match nth_error span i with Some x => (count_of x span =? 1)%nat | None => false end.
+
+(* ---- next(model.iter_periods(...)) ----
+   KEPT FINDING: PeriodIter.__next__ is `return next(self._iter)` where self._iter is a LIST, so next() on the object that
+   iter_periods() returns raises TypeError ('list' object is not an iterator) whenever iter_periods() itself returned — it never
+   yields the first (position, label) pair.  (for / list() / enumerate(), which solve() uses, go through __iter__ and work.) *)
+Definition period_iter_next_M {L : Type} (r : outcome (nat * list (Z * L))) : outcome (Z * L) :=
+  match r with Ret _ => Raise TypeError | Raise e => Raise e end.
